@@ -184,6 +184,10 @@ def filter_buildable(jobs):
 
 
 def apply_op(op, args, params=()):
+    # the four duality maps spelled through dual(kind=...) / undual(kind=...): same operator, params = [1]
+    if op in ('hodge', 'unhodge', 'polarity', 'unpolarity') and list(params) == [1]:
+        kind = 'hodge' if 'hodge' in op else 'polarity'
+        return args[0].undual(kind=kind) if op.startswith('un') else args[0].dual(kind=kind)
     if op == 'grade':
         return args[0].grade(*params)
     if op == 'pow':
